@@ -1,6 +1,8 @@
 import CopVerif.Base.FloatIO
 import CopVerif.Gen.Bivariate
-import CopVerif.Model.RootFind
+import CopVerif.Model.BrentStandIn
+import CopVerif.Model.BivFit
+import CopVerif.Model.Kendall
 /-! Driver commands for the generated bivariate definitions evaluated at `Float`. -/
 namespace CopVerif.Driver
 open CopVerif CopVerif.IO CopVerif.Gen
@@ -18,7 +20,7 @@ def showBound : Except Err (Bound Float) → String
 /-- model of `Bivariate.percent_point`'s generic loop: root of `h(u, v) - y` on `[eps, 1]`
     by bisection (`brentq` is an external symbol; the harness compares within tolerance). -/
 def brentModel (hrow : Float → Float → Float) (eps : Float) (y v : Float) : Float :=
-  Model.bisectScalar (fun u => hrow u v - y) eps 1.0 200
+  Model.bisectRoot (fun u => hrow u v - y) eps 1.0 200
 
 def bivMethod (fam meth : String) (θ eps : Float) (xs : List (Float × Float)) : String :=
   match fam, meth with
@@ -35,6 +37,22 @@ def bivMethod (fam meth : String) (θ eps : Float) (xs : List (Float × Float)) 
   | "gumbel", "h" => showRes (Gumbel.h θ xs)
   | "gumbel", "ppf" => showRes (Gumbel.ppf θ (brentModel (Gumbel.hRow θ) eps) xs)
   | _, _ => "bad-op"
+
+def parseFam : String → Option Model.Family
+  | "clayton" => some .clayton
+  | "frank" => some .frank
+  | "gumbel" => some .gumbel
+  | _ => none
+
+def showOptF : Option Float → String
+  | none => "none"
+  | some x => showFloat x
+
+def showOptB : Option (Bound Float) → String
+  | none => "none"
+  | some (.fin x) => showFloat x
+  | some .posInf => showFloat Float.inf
+  | some .negInf => showFloat (-Float.inf)
 
 def biv (ws : List String) : String :=
   match ws with
@@ -71,6 +89,41 @@ def biv (ws : List String) : String :=
       | some (.error e) => "err " ++ toString e
       | none => "bad-op"
     | _ => "bad-op"
+  | "fit" :: fam :: uc :: vc :: rest =>
+    -- fit <fam> <uConst 0|1> <vConst 0|1> uMin uMax vMin vMax tau frankTheta
+    match parseFloats rest, parseFam fam with
+    | some [uMin, uMax, vMin, vMax, tau, frankθ], some f =>
+      let inp : Model.FitInput Float := { uMin, uMax, vMin, vMax, tau, uConst := uc == "1", vConst := vc == "1" }
+      let (r, st) := Model.fit f (fun _ => frankθ) inp { tau := none, theta := none }
+      let rs := match r with | .ok _ => "ok" | .error e => "err " ++ toString e
+      let us := match Model.usable f st with | .ok _ => "usable" | .error e => "unusable:" ++ toString e
+      rs ++ " tau=" ++ showOptF st.tau ++ " theta=" ++ showOptB st.theta ++ " " ++ us
+    | _, _ => "bad-op"
+  | "sample" :: fam :: nstr :: rest =>
+    -- sample <fam> <n> θ τ eps d1[0..n) d2[0..n)
+    match parseFloats rest, nstr.toNat? with
+    | some (θ :: τ :: eps :: vals), some n =>
+      let d1 := vals.take n
+      let d2 := (vals.drop n).take n
+      let ppf : Option (List (Float × Float) → Except Err (List Float)) := match fam with
+        | "clayton" => some (Clayton.ppf θ)
+        | "frank" => some (Frank.ppf θ (brentModel (Frank.hRow θ) eps))
+        | "gumbel" => some (Gumbel.ppf θ (brentModel (Gumbel.hRow θ) eps))
+        | _ => none
+      match ppf with
+      | none => "bad-op"
+      | some ppf =>
+        match Base.sample τ ppf d1 d2 with
+        | .ok rows => "ok " ++ showFloats (rows.flatMap fun p => [p.1, p.2])
+        | .error e => "err " ++ toString e
+    | _, _ => "bad-op"
+  | "taub" :: rest =>
+    match parseFloats rest with
+    | some vals =>
+      let xs := pairs vals
+      "ok " ++ showFloat (Model.Kendall.tauB (β := Float) xs) ++
+        s!" {Model.Kendall.conc xs} {Model.Kendall.disc xs} {Model.Kendall.tiedX xs} {Model.Kendall.tiedY xs} {Model.Kendall.npairs xs}"
+    | none => "bad-op"
   | meth :: fam :: rest =>
     match parseFloats rest with
     | some (θ :: eps :: vals) => bivMethod fam meth θ eps (pairs vals)
